@@ -123,6 +123,10 @@ RotatePartsS(cfg, ms, s, nextT, createNew) ==
       st2  == IF LeadingStream(cfg, s) THEN [st1 EXCEPT !.pt = PartTargetOf(cfg, st1)] ELSE st1
   IN [ms1 EXCEPT !.st[s] = st2]
 
+\* weakened variants of the model (vacuity guards: TLC must refute each of them against the property clauses; trace
+\* configurations carry no `weak` field)
+Weak(cfg, name) == "weak" \in DOMAIN cfg /\ cfg.weak = name
+
 \* muxerStream.rotateSegments
 RotateSegmentsS(cfg, ms, s, nextT, nextNtp, force) ==
   LET ms1 == IF IsVar(cfg, "mpegts") THEN ms ELSE RotatePartsS(cfg, ms, s, nextT, FALSE)
@@ -132,7 +136,7 @@ RotateSegmentsS(cfg, ms, s, nextT, nextNtp, force) ==
               THEN [i \in 1..NumGaps(cfg) |-> [id |-> -1, gap |-> 1, dur |-> SegDur(seg)]]
               ELSE <<>>
       w1  == st.win \o gaps \o <<seg>>
-      over == Len(w1) > cfg.segCount
+      over == Len(w1) > (IF Weak(cfg, "keepOneMore") THEN cfg.segCount + 1 ELSE cfg.segCount)
       w2  == IF over THEN Tail(w1) ELSE w1
       ns  == st.nextSeg + 1
       newOpen == IF IsVar(cfg, "mpegts")
@@ -237,7 +241,8 @@ FMP4Write(cfg, ms, t, u, chg) ==
                ms4 == WriteSample(cfg, ms3, t, smp2)
            IN IF ms4.err \/ ~lead THEN ms4
               ELSE LET st == ms4.st[s] IN
-                   IF u.ra = 1 /\ (chg \/ ct - st.open.start >= cfg.segMin)
+                   IF u.ra = 1 /\ (chg \/ (IF Weak(cfg, "gtSegMin") THEN ct - st.open.start > cfg.segMin
+                                                                         ELSE ct - st.open.start >= cfg.segMin))
                    THEN LET m5 == RotateSegmentsAll(cfg, ms4, ct, u.ntp, chg)
                         IN IF chg THEN [m5 EXCEPT !.frozen = FALSE, !.durs = {}] ELSE [m5 EXCEPT !.frozen = TRUE]
                    ELSE IF IsVar(cfg, "ll") /\ ct - st.opart.start >= ms4.adj
@@ -249,7 +254,7 @@ VideoUnit(cfg, ms, t, u) ==
   LET m1  == DetectParams(cfg, ms, t, u)
       chg == u.ra = 1 /\ m1.pendChg
       m2  == IF chg THEN [m1 EXCEPT !.pendChg = FALSE] ELSE m1
-  IN IF ~m2.tk[t].ra1 /\ u.ra = 0 THEN m2
+  IN IF ~m2.tk[t].ra1 /\ u.ra = 0 /\ ~Weak(cfg, "noGate") THEN m2
      ELSE LET m3 == [m2 EXCEPT !.tk[t].ra1 = TRUE] IN
           IF IsVar(cfg, "mpegts")
           THEN LET st == m3.st[1]
